@@ -289,11 +289,13 @@ func (m Message) Bytes() []byte {
 	s.AddUint16(uint16(len(m.Authority)))
 	s.AddUint16(uint16(len(m.Additional)))
 	for _, v := range m.Question {
-		parts := strings.Split(strings.TrimSuffix(v.Name, "."), ".")
-		for _, p := range parts {
-			s.AddUint8LengthPrefixed(func(s *cryptobyte.Builder) {
-				s.AddBytes([]byte(p))
-			})
+		// The root name has no labels.
+		if name := strings.TrimSuffix(v.Name, "."); len(name) > 0 {
+			for _, p := range strings.Split(name, ".") {
+				s.AddUint8LengthPrefixed(func(s *cryptobyte.Builder) {
+					s.AddBytes([]byte(p))
+				})
+			}
 		}
 		s.AddUint8(0)
 		s.AddUint16(v.Type)
@@ -326,10 +328,12 @@ func (rr RR) Bytes() []byte {
 			s.AddBytes([]byte(data))
 		case string:
 			if rr.Type == 2 || rr.Type == 5 || rr.Type == 12 { // NS, CNAME, PTR
-				for _, p := range strings.Split(data, ".") {
-					s.AddUint8LengthPrefixed(func(s *cryptobyte.Builder) {
-						s.AddBytes([]byte(p))
-					})
+				if len(data) > 0 {
+					for _, p := range strings.Split(data, ".") {
+						s.AddUint8LengthPrefixed(func(s *cryptobyte.Builder) {
+							s.AddBytes([]byte(p))
+						})
+					}
 				}
 				s.AddUint8(0)
 			}
